@@ -71,7 +71,7 @@ def tree : Iface :=
     types := [.obj [84] [([97, 95, 98], .optional (.array .int), [[97, 98, 111, 117, 116, 32, 97, 95, 98]]), ([117], .struct [([105, 110, 110, 101, 114], .string, [[115, 101, 101, 32, 40, 120, 41, 58, 32, 121]])], [])] [[116, 104, 101, 32, 116, 121, 112, 101]],
               .enm [69] [([111, 110, 101], []), ([116, 119, 111], [])] [[97, 110, 32, 101, 110, 117, 109]]],
     methods := [⟨[77], [([120], .map (.custom [84]), [[112, 97, 114, 97, 109]])], [([114], .struct [], [])], [[100, 111, 101, 115, 32, 116, 104, 105, 110, 103, 115]]⟩],
-    errors := [⟨[66, 97, 100], [([119, 104, 121], .enum [[112], [113]], [])], []⟩] }
+    errors := [⟨[66, 97, 100], [([119, 104, 121], .enum [([112], []), ([113], [])], [])], []⟩] }
 example : ifaceOK tree = true := by decide +kernel
 example : roundTrips tree = true := by decide +kernel
 example : commentOK [116, 114, 32, 32] = true := by decide
